@@ -61,6 +61,7 @@ from vlib.report import Report
 PID = "C01"
 CAP = 40
 CLASSES = ("68k", "abs", "86")
+SELFCLASSES = ("self68k", "selfabs", "self86")   # alphabets with self-referencing (padded) reference statements
 
 
 # ------------------------------------------------------------------------------------------------
@@ -93,11 +94,14 @@ def tlc_jobs(tier):
                                 mem="8g")
         jobs["Sim_" + c] = dict(module="PassLoop_Gen", cfg="PassLoop_Sim_%s.cfg" % c, tags=("OUT",), collect=True,
                                 simulate=(60 if tier == "quick" else 3000), depth=140)
+        jobs["Gen_self" + c] = dict(module="PassLoop_Gen", cfg="PassLoop_Gen_self%s.cfg" % c, tags=("OUT",),
+                                    collect=True, mem="8g")
         if tier != "quick":
             jobs["MC_" + c] = dict(module="PassLoop_MC", cfg="PassLoop_MC_%s5.cfg" % c, mem="12g", workers=4)
     jobs["MC_err"] = dict(module="PassLoop_MC", cfg="PassLoop_MC_err.cfg")
     jobs["MC_pinned"] = dict(module="PassLoop_MC", cfg="PassLoop_MC_68k_pinned.cfg")
     jobs["MC_pinned_char"] = dict(module="PassLoop_MC", cfg="PassLoop_MC_68k_pinned_char.cfg")
+    jobs["MC_pinned_self"] = dict(module="PassLoop_MC", cfg="PassLoop_MC_self68k_pinned.cfg")
     jobs["MC_Y"] = dict(module="PassLoop_MC", cfg="PassLoop_MC_Y.cfg")
     jobs["MC_Y_fixed"] = dict(module="PassLoop_MC", cfg="PassLoop_MC_Y_fixed.cfg")
     return jobs
@@ -137,10 +141,12 @@ def model_checks(rep, tier, R):
     rep.model("PassLoop_MC(68k, pinned algorithm)", r)
     rep.part("PassLoop_MC(68k, pinned algorithm)", termination="violated (expected: livelock of the pinned tree)",
              lasso_program=_prog_of_counterexample(r.out))
-    r = tlc.must(R["MC_pinned_char"], "pinned char cfg")
-    if r.violation:
-        raise CheckError("pinned algorithm: a non-terminating run without a patched label: %s" % r.violation[:1500])
-    rep.model("PassLoop_MC(68k, pinned, LivelockOnlyWhenPatched)", r)
+    for n in ("MC_pinned_char", "MC_pinned_self"):
+        r = tlc.must(R[n], n)
+        if r.violation:
+            raise CheckError("pinned algorithm: a non-terminating run without a patched label (%s): %s"
+                             % (n, r.violation[:1500]))
+        rep.model("PassLoop_MC(%s, pinned, LivelockOnlyWhenPatched)" % n[10:], r)
     r = tlc.must(R["MC_Y"], "-Y cfg")
     if not r.violation or "Termination" not in r.violation:
         raise CheckError("PassLoop(ThrowErrors=TRUE) no longer shows the -Y oscillation")
@@ -160,12 +166,14 @@ def generate(rep, cls, tier, r, R):
                          % (cls, g.violation[:1500]))
     rep.model("PassLoop_Gen(%s: invariants + Termination + export)" % cls, g)
     exhaustive = [x for (t, x) in g.printed]
-    s = tlc.must(R["Sim_" + cls], "PassLoop_Sim %s" % cls)
-    if s.violation:
-        raise CheckError("PassLoop_Sim_%s.cfg: %s" % (cls, s.violation[:1500]))
     seen = set()
     sim = []
-    for (t, x) in s.printed:
+    s = None
+    if ("Sim_" + cls) in R:
+        s = tlc.must(R["Sim_" + cls], "PassLoop_Sim %s" % cls)
+        if s.violation:
+            raise CheckError("PassLoop_Sim_%s.cfg: %s" % (cls, s.violation[:1500]))
+    for (t, x) in (s.printed if s else []):
         k = json.dumps([x["prog"], x["org"]], sort_keys=True)
         if k not in seen and len(x["prog"]) > 4:
             seen.add(k)
@@ -177,7 +185,11 @@ def generate(rep, cls, tier, r, R):
         small = [x for x in exhaustive if len(x["prog"]) <= 3]
         big = [x for x in exhaustive if len(x["prog"]) > 3]
         r.shuffle(big)
-        quota = {"68k": 1100, "abs": 350, "86": 550}[cls]
+        quota = {"68k": 1100, "abs": 350, "86": 550, "self68k": 700, "selfabs": 250, "self86": 500}[cls]
+        if cls in SELFCLASSES:      # all of <= 2 items (label + padded self-reference needs two), sampled 3-item ones
+            small = [x for x in exhaustive if len(x["prog"]) <= 2]
+            big = [x for x in exhaustive if len(x["prog"]) > 2]
+            r.shuffle(big)
         exhaustive = small + big[:quota]
     else:
         if len(exhaustive) > 60000:
@@ -214,7 +226,7 @@ def observe_verdicts(cls, obs):
         return {}, None
     path = os.path.join(scratch(), "obs-%s-%d.ndjson" % (cls, len(obs)))
     tlc.write_ndjson(obs, path)
-    r = tlc.run("PassLoop_Obs", "PassLoop_Obs_%s.cfg" % cls, workers=1, env={"OBS": path}, timeout=1500, mem="8g",
+    r = tlc.run("PassLoop_Obs", "PassLoop_Obs_%s.cfg" % passloop.BASECLASS.get(cls, cls), workers=1, env={"OBS": path}, timeout=1500, mem="8g",
                 tags=("OUT",))
     os.unlink(path)
     if r.error or r.violation:
@@ -229,6 +241,8 @@ def replay_class(rep, bld, cls, cases, tier):
     todo = []
     for ci, case in enumerate(cases):
         for dia in passloop.CLASSES[cls]:
+            if not passloop.supports(dia, case["prog"]):
+                continue
             src, choice = _jobs_for(case, dia, ci)
             todo.append((case, dia, src, choice, []))
     with Phase("replay %s: %d programs x 2 runs" % (cls, len(todo))):
@@ -237,7 +251,7 @@ def replay_class(rep, bld, cls, cases, tier):
     pending = []   # (idx, layout)
     for idx, ((case, dia, src, choice, opts), (res, rex)) in enumerate(zip(todo, results)):
         rep.evaluated()
-        rep.distinct(src, any(it["k"] in ("abs", "var", "rel") for it in case["prog"]))
+        rep.distinct(src, any(it["k"] in passloop.REFKINDS for it in case["prog"]))
         judge_termination(rep, bld, case, dia, src, opts, res, rex)
         if res.rc == 0 and res.p is not None:
             try:
@@ -593,7 +607,7 @@ def evaluate(rep, bld, R, tier, parts=("G", "Y", "VG", "VC")):
     r = rng("c01")
     cls_todo = {}
     cases86 = []
-    for cls in CLASSES:
+    for cls in CLASSES + SELFCLASSES:
         cases = generate(rep, cls, tier, r, R)
         if cls == "86":
             cases86 = cases
